@@ -75,7 +75,32 @@ func runFmtBShape(m *model.Model, s *ob.Set) {
 			continue
 		}
 		bo, ok := ifi.Cond.(*ssa.BinOp)
-		if !ok || !(sameQ(bo.X) || sameQ(bo.Y)) {
+		if !ok {
+			continue
+		}
+		// the loop bound is Q, or a count computed from Q (n := Q - len(m); for ; n > 0; n--)
+		var fromQ func(v ssa.Value, d int, seen map[ssa.Value]bool) bool
+		fromQ = func(v ssa.Value, d int, seen map[ssa.Value]bool) bool {
+			if sameQ(v) {
+				return true
+			}
+			if d == 0 || seen[v] {
+				return false
+			}
+			seen[v] = true
+			switch x := stripConv(v).(type) {
+			case *ssa.BinOp:
+				return fromQ(x.X, d-1, seen) || fromQ(x.Y, d-1, seen)
+			case *ssa.Phi:
+				for _, e := range x.Edges {
+					if fromQ(e, d-1, seen) {
+						return true
+					}
+				}
+			}
+			return false
+		}
+		if !fromQ(bo.X, 5, map[ssa.Value]bool{}) && !fromQ(bo.Y, 5, map[ssa.Value]bool{}) {
 			continue
 		}
 		// the loop body appends the byte '0'
